@@ -11,7 +11,7 @@
 (*  layer 2 - dictionaries: DictOps, (Spell, Dict)                                  *)
 (*  layer 3 - stateful components: LintGroup, ConfigOps, IgnoreOps, StatsLog,       *)
 (*                         DictFile, FileDictName, SourceFile, SegmentsOps,           *)
-(*                         StatsSession, PosEncoding, CommentLines                   *)
+(*                         StatsSession, PosEncoding, CommentLines, UserDict         *)
 (*  layer 4 - long-lived objects: JsLinter (harper-wasm), LspServer (harper-ls),     *)
 (*                         EffectsOps (process boundary)                             *)
 EXTENDS Naturals, Sequences
@@ -50,7 +50,8 @@ C08_ClientEdit(t, s, e, new) == Po!ClientApply(t, Po!SpanToRange(t, s, e), new) 
 \*      ... in the unit the server announced for the client's offer (UTF-16 when it announced none) -> PosEncoding, Trace_PosProto
 C08_Announce(offered, announced) == announced \in Pe!MayAnnounce(offered)
 C08_ClientEditIn(t, s, e, new, enc) == Pe!ClientApplyE(t, Pe!SpanToRangeE(t, s, e, enc), new, enc) = Sp!Apply("ReplaceWith", new, s, e, t)
-\* C09  the server's last word is the latest text          -> LspServer!LastWordUnlessOverlapped, ComesToRest
+\* C09  the server's last word is the latest text          -> LspServer!LastWordUnlessOverlapped, ComesToRest;
+\*                                                            under the current user dictionary -> UserDict!AcceptedEverywhere
 \* C10  the text never leaves the machine
 C10_EffectAllowed(mode, e) == Ef!EffectOk(mode, e)
 C10_ForbiddenDependency(name) == name \in Ef!ForbiddenDeps
